@@ -8,17 +8,18 @@ quiescent states of the event loop; tied to the real helpers by the corresponden
 `asyncio.gather/wait/shield/Semaphore/Event/Task.cancel` are modelled from their documented behaviour (the property is *partial*
 in that sense).
 
-Every theorem quantifies over ALL schedules `ops` (all completion orders of the task bodies and, for the online pool, the moment
-its body ends), all failure patterns `outs`, all semaphore sizes `n ≥ 1`, any number of tasks: `run fl en n outs ops = some s`
+Every theorem quantifies over ALL schedules `ops` (all completion orders of the task bodies, for the online pool the moment its
+body ends, and the cancellation of the helper's caller at any moment), all failure patterns `outs` (a body returns, raises, or ends in `CancelledError`), all semaphore sizes `n ≥ 1`, any number of tasks: `run fl en n outs ops = some s`
 says `s` is the state after the whole schedule; every prefix of a schedule is a schedule, so this is "after every step".
 
 Three defects found by this check were repaired in the code (b83b6cc09 `bounded_gather` holds a permit; 2f78d4573
 `cancel_on_error` cancels and awaits every unfinished task; 426463a22 `OnlineBoundedGather2._shutdown` waits for the tasks it
-cancels): the corresponding clauses are now full-strength theorems about the current model, and the pre-repair behaviour is kept as
-`startOld / stepOld` with the refutations on the old witnesses.  One clause is still FALSE for the code as it is (finding F4, the
-permit that `WithoutSemaphore` does not re-acquire on error): it is kept at full strength as a `def … : Prop`, refuted on its
-minimal witness (the one the check replays on the real code and `known_findings.json` lists) and proved in the strongest form that
-does hold (`running_le_bound_partial`).
+cancels): the corresponding clauses are theorems about the current model, and the pre-repair behaviour is kept as
+`startOld / stepOld` with the refutations on the old witnesses.  Two clauses are still FALSE for the code as it is: the bound
+(finding F4: the permit that `WithoutSemaphore` does not re-acquire on error) and "no task pending at exit" of the online pool
+(finding F5: a caller cancelled inside `__aexit__` abandons the running tasks).  Each is kept at full strength as a `def … : Prop`,
+refuted on its minimal witness (the ones the check replays on the real code and `known_findings.json` lists) and proved in the
+strongest form that does hold (`running_le_bound_partial`, `pending_empty_at_exit_partial`).
 -/
 namespace HailVerif.C20
 open HailVerif.Gather
@@ -64,11 +65,18 @@ theorem running_le_bound_fails_after_error : ¬ RunningLeBound := by
   have := h .raiseFirst .holdingPermit 1 [.raise 0, .ret 0, .ret 0] [.finish 0] _ (by decide) rfl
   revert this; decide
 
+/-- FALSE also through finding F5: an online pool under `Semaphore(1)` with two tasks whose caller is cancelled inside `__aexit__`:
+nothing is re-acquired, the caller's `async with sema:` releases again, and the two abandoned tasks run at once. -/
+theorem running_le_bound_fails_after_cancelled_exit : ¬ RunningLeBound := by
+  intro h
+  have := h .online .holdingPermit 1 [.ret 0, .ret 0] [.body (.ret 0), .cancelCaller] _ (by decide) rfl
+  revert this; decide
+
 /-- What does hold, for `bounded_gather2`/the pool called by a permit holder and for `bounded_gather(parallelism=n)` alike: at most
-`n` bodies run at once, at every step — always for `return_exceptions`, `cancel_on_error=True` and the online pool, and for
-`cancel_on_error=False` as long as the helper has not raised. -/
+`n` bodies run at once, at every step — always for `return_exceptions` and `cancel_on_error=True`, for `cancel_on_error=False` as
+long as the helper has not raised, and for the online pool as long as its exit has not been cancelled. -/
 theorem running_le_bound_partial (hn : 1 ≤ n) (h : run fl en n outs ops = some s)
-    (hok : fl ≠ .raiseFirst ∨ ∀ e, s.helper ≠ .raised e) : nRunning s.st ≤ n := by
+    (hok : fl ≠ .raiseFirst ∨ ∀ x, s.helper ≠ .raised x) (hna : s.helper ≠ .abandoned) : nRunning s.st ≤ n := by
   have hr := run_reach h
   have := permits_accounted fl en n outs ops s hn h
   obtain ⟨⟨h1, _, _⟩, hC, _, _⟩ := reach_all hr
@@ -78,10 +86,11 @@ theorem running_le_bound_partial (hn : 1 ≤ n) (h : run fl en n outs ops = some
     | raiseFirst => rcases hok with hok | hok
                     · exact absurd rfl hok
                     · exact absurd hh (hok e)
-    | returnExceptions => exact absurd hh (hC.rxNoRaise h1 e)
+    | returnExceptions => have := allDone_nRunning _ (hC.rxRaised h1 e hh).1; omega
     | raiseCancel => have := allDone_nRunning _ (hC.rcRaised h1 e hh); omega
     | online => have : budget n s = n := by simp [budget, h1, hh]
                 omega
+  | abandoned => exact absurd hh hna
   | active => have : budget n s ≤ n := by unfold budget; rw [h1, hh]; cases fl <;> simp
               omega
   | exiting => have : budget n s ≤ n := by unfold budget; rw [h1, hh]; cases fl <;> simp
@@ -101,51 +110,56 @@ theorem bounded_gather_bound_failed_before_repair :
 /-! ## results -/
 
 /-- Submission order: whenever a helper returns, the list it returns is the scripted outcomes in submission order (values; for
-`return_exceptions` the pairs `(v, None)` / `(None, e)`). -/
+`return_exceptions` the pairs `(v, None)` / `(None, e)`, a body that ended in `CancelledError` giving `(None, CancelledError)`). -/
 theorem results_in_submission_order (h : run fl en n outs ops = some s) (sl : List Res) (hret : s.helper = .returned sl) :
     sl = outs.map resOf := by
   obtain ⟨⟨_, _, h3⟩, hC, _, _⟩ := reach_all (run_reach h)
   obtain ⟨rfl, had, hexc⟩ := hC.ret sl hret
   rw [← h3]
-  exact map_slotOf_eq s.st s.outs hC.len had hC.agree (hC.nocancel hexc (by intro e he; simp [hret] at he))
+  exact map_slotOf_eq s.st s.outs hC.len had (hC.strict hexc (by intro e he; simp [hret] at he))
 
-/-- `return_exceptions`: the helper never raises, and a returned list has one slot per task, each the value or the exception of
-that task (never a cancellation). -/
-theorem return_exceptions_total (h : run .returnExceptions en n outs ops = some s) :
-    (∀ e, s.helper ≠ .raised e) ∧
-    ∀ sl, s.helper = .returned sl → sl.length = outs.length ∧ ∀ (i : Nat) (o : Outcome), outs[i]? = some o → sl[i]? = some (resOf o) := by
-  obtain ⟨⟨h1, _, _⟩, hC, _, _⟩ := reach_all (run_reach h)
-  refine ⟨hC.rxNoRaise h1, ?_⟩
-  intro sl hret
-  have := results_in_submission_order .returnExceptions en n outs ops s h sl hret
-  subst this
-  exact ⟨by simp, by intro i o ho; simp [ho]⟩
-
-/-- The error contract: a raising helper that has raised, raised the FIRST exception in schedule order; one that returned saw
-no exception. -/
-theorem raise_is_first (hfl : fl = .raiseFirst ∨ fl = .raiseCancel) (h : run fl en n outs ops = some s) :
-    (∀ e, s.helper = .raised e → firstErr outs ops = some e) ∧ (∀ sl, s.helper = .returned sl → firstErr outs ops = none) := by
-  obtain ⟨⟨h1, _, _⟩, _, hS, _⟩ := reach_all (run_reach h)
-  have hS' := hS (by rcases hfl with rfl | rfl <;> simp)
-  constructor
-  · intro e he
-    rw [← hS']
-    rcases hfl with rfl | rfl <;> simp [errSeen, h1, he]
-  · intro sl he
-    rw [← hS']
-    rcases hfl with rfl | rfl <;> simp [errSeen, h1, he]
-
-/-- `OnlineBoundedGather2`: the exit raises the first exception in schedule order — of a task or of the body — and later ones
-are discarded; it returns normally only if there was none. -/
-theorem first_exception_wins (h : run .online en n outs ops = some s) :
-    (∀ e, s.helper = .raised e → firstErr outs ops = some e) ∧ (∀ sl, s.helper = .returned sl → firstErr outs ops = none) := by
+/-- The error contract, for every helper: one that has raised, raised the FIRST exception in schedule order that it gets to see
+(`firstErr`: a task's exception — a body ending in `CancelledError` counts for the raising helpers, is stored in place by
+`return_exceptions` and swallowed by the online pool —, the online body's exception, the cancellation of the caller); one that
+returned saw none. -/
+theorem raised_is_first_exception (h : run fl en n outs ops = some s) :
+    (∀ x, s.helper = .raised x → firstErr fl outs ops = some x) ∧ (∀ sl, s.helper = .returned sl → firstErr fl outs ops = none) := by
   obtain ⟨⟨h1, _, _⟩, hC, hS, _⟩ := reach_all (run_reach h)
-  have hS' := hS (by simp)
   constructor
-  · intro e he
-    rw [← hS']; simp [errSeen, h1, hC.raisedExc h1 e he]
+  · intro x he; rw [← hS]; simp [errSeen, he]
   · intro sl he
-    rw [← hS']; simp [errSeen, h1, (hC.ret sl he).2.2]
+    rw [← hS]
+    cases fl <;> simp [errSeen, he, h1, (hC.ret sl he).2.2]
+
+/-- `return_exceptions`: the helper raises nothing but the `CancelledError` of its own cancelled caller, and a returned list has one
+slot per task, each the value or the exception of that task. -/
+theorem return_exceptions_total (h : run .returnExceptions en n outs ops = some s) :
+    (∀ x, s.helper = .raised x → x = .cancelled ∧ Op.cancelCaller ∈ ops) ∧
+    ∀ sl, s.helper = .returned sl →
+      sl.length = outs.length ∧ ∀ (i : Nat) (o : Outcome), outs[i]? = some o → sl[i]? = some (resOf o) := by
+  constructor
+  · intro x hx
+    have h1 := (raised_is_first_exception .returnExceptions en n outs ops s h).1 x hx
+    obtain ⟨⟨hfl, _, _⟩, hC, _, _⟩ := reach_all (run_reach h)
+    have hc : x = .cancelled := (hC.rxRaised hfl x hx).2
+    subst hc
+    exact ⟨rfl, firstErr_cancelled_caller .returnExceptions (Or.inl rfl) outs ops h1⟩
+  · intro sl hret
+    have := results_in_submission_order .returnExceptions en n outs ops s h sl hret
+    subst this
+    exact ⟨by simp, by intro i o ho; simp [ho]⟩
+
+/-- The raising helpers (`cancel_on_error` or not): the exception raised is the first one in schedule order. -/
+theorem raise_is_first (h : run fl en n outs ops = some s) (x : Exn) (hr : s.helper = .raised x) :
+    firstErr fl outs ops = some x :=
+  (raised_is_first_exception fl en n outs ops s h).1 x hr
+
+/-- `OnlineBoundedGather2`: the exit raises the first exception in schedule order — of a task, of the body, or the cancellation of
+the caller — and later ones are discarded; it returns normally only if there was none. -/
+theorem first_exception_wins (h : run .online en n outs ops = some s) :
+    (∀ x, s.helper = .raised x → firstErr .online outs ops = some x) ∧
+      (∀ sl, s.helper = .returned sl → firstErr .online outs ops = none) :=
+  raised_is_first_exception .online en n outs ops s h
 
 /-! ## nothing left running -/
 
@@ -156,59 +170,96 @@ theorem none_running_after_return (h : run fl en n outs ops = some s) (sl : List
   refine ⟨(hC.ret sl hret).2.1, ?_⟩
   apply Classical.byContradiction
   intro hne
-  obtain ⟨⟨e, he⟩, _⟩ := hP hne
-  simp [hret] at he
+  rcases hP hne with ⟨⟨e, he⟩, _⟩ | he <;> simp [hret] at he
 
-/-- `cancel_on_error=True`: once the helper has raised, every task is finished — the unfinished ones were cancelled AND awaited:
-none was pending at the instant the helper raised. -/
-theorem cancel_on_error_cancels_rest (h : run .raiseCancel en n outs ops = some s) (e : Nat) (hr : s.helper = .raised e) :
+/-- `cancel_on_error=True`: once the helper has raised — because a task failed, because a task ended in `CancelledError`, or because
+its own caller was cancelled — every task is finished: the unfinished ones were cancelled AND awaited, none was pending at the
+instant the helper raised. -/
+theorem cancel_on_error_cancels_rest (h : run .raiseCancel en n outs ops = some s) (x : Exn) (hr : s.helper = .raised x) :
     allDone s.st = true ∧ s.pendingAtReturn = 0 := by
   obtain ⟨⟨h1, _, _⟩, hC, _, hP⟩ := reach_all (run_reach h)
-  refine ⟨hC.rcRaised h1 e hr, ?_⟩
+  refine ⟨hC.rcRaised h1 x hr, ?_⟩
   apply Classical.byContradiction
   intro hne
-  have := (hP hne).2
-  simp [h1] at this
+  rcases hP hne with ⟨_, hf⟩ | he
+  · simp [h1] at hf
+  · simp [hr] at he
 
-/-- `OnlineBoundedGather2`: when the `async with` block has been left — normally, because a task failed, or because the body
-raised — every task is finished and none was pending at the instant of the exit. -/
-theorem pending_empty_at_exit (h : run .online en n outs ops = some s) (hleft : s.helper ≠ .active ∧ s.helper ≠ .exiting) :
+/-- `return_exceptions` whose caller is cancelled: `asyncio.gather` cancels every task and the helper raises only when all of them
+are finished. -/
+theorem return_exceptions_cancelled_leaves_nothing (h : run .returnExceptions en n outs ops = some s) (x : Exn)
+    (hr : s.helper = .raised x) : allDone s.st = true ∧ s.pendingAtReturn = 0 := by
+  obtain ⟨⟨h1, _, _⟩, hC, _, hP⟩ := reach_all (run_reach h)
+  refine ⟨(hC.rxRaised h1 x hr).1, ?_⟩
+  apply Classical.byContradiction
+  intro hne
+  rcases hP hne with ⟨_, hf⟩ | he
+  · simp [h1] at hf
+  · simp [hr] at he
+
+/-- `OnlineBoundedGather2` at full strength: once the `async with` block has been left — however — no task is unfinished. -/
+def PendingEmptyAtExit : Prop :=
+  ∀ (en : Entry) (n : Nat) (outs : List Outcome) (ops : List Op) (s : State),
+    1 ≤ n → run .online en n outs ops = some s → (s.helper ≠ .active ∧ s.helper ≠ .exiting) →
+      allDone s.st = true ∧ s.pendingAtReturn = 0
+
+/-- FALSE (open finding F5): one task submitted, the body ends, and while `__aexit__` waits for the task the caller is cancelled:
+`await self._done_event.wait()` raises `CancelledError` straight out of `__aexit__`; the task is neither cancelled nor awaited and
+keeps running after the block was left. -/
+theorem pending_empty_at_exit_fails : ¬ PendingEmptyAtExit := by
+  intro h
+  have := (h .holdingPermit 1 [.ret 0] [.body (.ret 0), .cancelCaller] _ (by decide) rfl (by decide)).1
+  revert this; decide
+
+/-- What does hold: whenever the pool's exit returned, or raised through its shut-down path (a task failed, the body raised, the
+caller was cancelled inside the BODY), every task is finished and none was pending at that instant.  The only other way out is a
+caller cancelled inside `__aexit__` (`exit_abandoned_only_by_cancellation`). -/
+theorem pending_empty_at_exit_partial (h : run .online en n outs ops = some s)
+    (hleft : (∃ sl, s.helper = .returned sl) ∨ ∃ x, s.helper = .raised x) :
     allDone s.st = true ∧ s.pendingAtReturn = 0 := by
   obtain ⟨⟨h1, _, _⟩, hC, _, hP⟩ := reach_all (run_reach h)
   constructor
-  · cases hh : s.helper with
-    | active => exact absurd hh hleft.1
-    | exiting => exact absurd hh hleft.2
-    | returned sl => exact (hC.ret sl hh).2.1
-    | raised e => exact (hC.excOnline e (hC.raisedExc h1 e hh)).2
+  · rcases hleft with ⟨sl, hh⟩ | ⟨x, hh⟩
+    · exact (hC.ret sl hh).2.1
+    · exact (hC.excOnline x (hC.raisedExc h1 x hh)).2
   · apply Classical.byContradiction
     intro hne
-    have := (hP hne).2
-    simp [h1] at this
+    rcases hP hne with ⟨_, hf⟩ | he
+    · simp [h1] at hf
+    · rcases hleft with ⟨sl, hh⟩ | ⟨x, hh⟩ <;> simp [hh] at he
 
-/-- Only `cancel_on_error=False` — by its documentation — leaves tasks running when it raises. -/
+theorem exit_abandoned_only_by_cancellation (h : run fl en n outs ops = some s) (ha : s.helper = .abandoned) :
+    fl = .online ∧ Op.cancelCaller ∈ ops := by
+  obtain ⟨⟨h1, _, _⟩, hC, hS, _⟩ := reach_all (run_reach h)
+  have hfl : fl = .online := h1 ▸ hC.abandonedOnline ha
+  refine ⟨hfl, ?_⟩
+  subst hfl
+  exact firstErr_cancelled_caller .online (Or.inr rfl) outs ops (by rw [← hS]; simp [errSeen, ha])
+
+/-- Only `cancel_on_error=False` — by its documentation — and an abandoned pool exit (F5) leave tasks running. -/
 theorem unfinished_at_return_only_without_cancel (h : run fl en n outs ops = some s) (hne : s.pendingAtReturn ≠ 0) :
-    fl = .raiseFirst ∧ ∃ e, s.helper = .raised e := by
+    (fl = .raiseFirst ∧ ∃ x, s.helper = .raised x) ∨ s.helper = .abandoned := by
   obtain ⟨⟨h1, _, _⟩, _, _, hP⟩ := reach_all (run_reach h)
-  obtain ⟨he, hf⟩ := hP hne
-  exact ⟨h1 ▸ hf, he⟩
+  rcases hP hne with ⟨he, hf⟩ | he
+  · exact Or.inl ⟨h1 ▸ hf, he⟩
+  · exact Or.inr he
 
 /-- The repaired defect F2, kept as a witness: before 2f78d4573, tasks `[raise, ok]` on a `Semaphore(1)` held by the caller; task 0
 fails, the clean-up loop re-raised at the failed task and task 1 was never cancelled: running after the helper raised. -/
 theorem cancel_on_error_failed_before_repair :
-    ¬ (∀ (en : Entry) (n : Nat) (outs : List Outcome) (ops : List Op) (s : State) (e : Nat),
-        1 ≤ n → runOld .raiseCancel en n outs ops = some s → s.helper = .raised e → allDone s.st = true) := by
+    ¬ (∀ (en : Entry) (n : Nat) (outs : List Outcome) (ops : List Op) (s : State) (x : Exn),
+        1 ≤ n → runOld .raiseCancel en n outs ops = some s → s.helper = .raised x → allDone s.st = true) := by
   intro h
-  have := h .holdingPermit 1 [.raise 0, .ret 0] [.finish 0] _ 0 (by decide) rfl rfl
+  have := h .holdingPermit 1 [.raise 0, .ret 0] [.finish 0] _ (.code 0) (by decide) rfl rfl
   revert this; decide
 
 /-- F2, second face: tasks `[ok, raise]`, task 1 fails; task 0 was cancelled but not awaited — unfinished at the instant the helper
 raised. -/
 theorem cancel_on_error_await_failed_before_repair :
-    ¬ (∀ (en : Entry) (n : Nat) (outs : List Outcome) (ops : List Op) (s : State) (e : Nat),
-        1 ≤ n → runOld .raiseCancel en n outs ops = some s → s.helper = .raised e → s.pendingAtReturn = 0) := by
+    ¬ (∀ (en : Entry) (n : Nat) (outs : List Outcome) (ops : List Op) (s : State) (x : Exn),
+        1 ≤ n → runOld .raiseCancel en n outs ops = some s → s.helper = .raised x → s.pendingAtReturn = 0) := by
   intro h
-  have := h .holdingPermit 2 [.ret 0, .raise 0] [.finish 1] _ 0 (by decide) rfl rfl
+  have := h .holdingPermit 2 [.ret 0, .raise 0] [.finish 1] _ (.code 0) (by decide) rfl rfl
   revert this; decide
 
 /-- The repaired defect F3, kept as a witness: before 426463a22, one task submitted, the body raises: `_shutdown()` cancelled the
@@ -231,29 +282,47 @@ example : (start .returnExceptions .boundedGather 1 [.ret 0, .ret 0]).st = [.run
 example : (startOld .returnExceptions .boundedGather 1 [.ret 0, .ret 0]).st = [.running, .running] := by decide
 -- cancel_on_error, failing task first: task 1 is cancelled too and nothing is pending when the helper raises (before F2: running)
 example : run .raiseCancel .holdingPermit 1 [.raise 0, .ret 0] [.finish 0]
-    = some ⟨.raiseCancel, .holdingPermit, [.raise 0, .ret 0], [.done (.err 0), .done .cancelled], 2, .raised 0, none, 0⟩ := by decide
+    = some ⟨.raiseCancel, .holdingPermit, [.raise 0, .ret 0], [.done (.err 0), .done .cancelled], 2, .raised (.code 0), none, 0⟩ := by decide
 example : runOld .raiseCancel .holdingPermit 1 [.raise 0, .ret 0] [.finish 0]
-    = some ⟨.raiseCancel, .holdingPermit, [.raise 0, .ret 0], [.done (.err 0), .running], 1, .raised 0, none, 1⟩ := by decide
+    = some ⟨.raiseCancel, .holdingPermit, [.raise 0, .ret 0], [.done (.err 0), .running], 1, .raised (.code 0), none, 1⟩ := by decide
 -- failing task last: task 0 is cancelled and awaited (before F2: 1 task unfinished when the helper raised)
 example : run .raiseCancel .holdingPermit 2 [.ret 0, .raise 0] [.finish 1]
-    = some ⟨.raiseCancel, .holdingPermit, [.ret 0, .raise 0], [.done .cancelled, .done (.err 0)], 3, .raised 0, none, 0⟩ := by
+    = some ⟨.raiseCancel, .holdingPermit, [.ret 0, .raise 0], [.done .cancelled, .done (.err 0)], 3, .raised (.code 0), none, 0⟩ := by
   decide
 example : runOld .raiseCancel .holdingPermit 2 [.ret 0, .raise 0] [.finish 1]
-    = some ⟨.raiseCancel, .holdingPermit, [.ret 0, .raise 0], [.done .cancelled, .done (.err 0)], 3, .raised 0, none, 1⟩ := by
+    = some ⟨.raiseCancel, .holdingPermit, [.ret 0, .raise 0], [.done .cancelled, .done (.err 0)], 3, .raised (.code 0), none, 1⟩ := by
   decide
 -- online pool, body raises: the task is cancelled and awaited (before F3: unfinished (1) when the exit raised)
 example : run .online .holdingPermit 1 [.ret 0] [.body (.raise 0)]
-    = some ⟨.online, .holdingPermit, [.ret 0], [.done .cancelled], 1, .raised 0, some 0, 0⟩ := by decide
+    = some ⟨.online, .holdingPermit, [.ret 0], [.done .cancelled], 1, .raised (.code 0), some (.code 0), 0⟩ := by decide
 example : runOld .online .holdingPermit 1 [.ret 0] [.body (.raise 0)]
-    = some ⟨.online, .holdingPermit, [.ret 0], [.done .cancelled], 1, .raised 0, some 0, 1⟩ := by decide
+    = some ⟨.online, .holdingPermit, [.ret 0], [.done .cancelled], 1, .raised (.code 0), some (.code 0), 1⟩ := by decide
 -- F4 (open): after the error two bodies run under a one-permit semaphore
 example : run .raiseFirst .holdingPermit 1 [.raise 0, .ret 0, .ret 0] [.finish 0]
-    = some ⟨.raiseFirst, .holdingPermit, [.raise 0, .ret 0, .ret 0], [.done (.err 0), .running, .running], 0, .raised 0, none,
+    = some ⟨.raiseFirst, .holdingPermit, [.raise 0, .ret 0, .ret 0], [.done (.err 0), .running, .running], 0, .raised (.code 0), none,
         2⟩ := by decide
 -- online pool: a task fails while the body is still running, the body's own later exception is discarded
 example : run .online .holdingPermit 2 [.ret 1, .raise 7, .ret 3] [.finish 0, .finish 1, .body (.raise 9)]
     = some ⟨.online, .holdingPermit, [.ret 1, .raise 7, .ret 3], [.done (.ok 1), .done (.err 7), .done .cancelled], 2,
-        .raised 7, some 7, 0⟩ := by decide
+        .raised (.code 7), some (.code 7), 0⟩ := by decide
+-- a body ending in CancelledError: stored in place by return_exceptions, raised (and the rest cancelled) by cancel_on_error
+example : run .returnExceptions .holdingPermit 2 [.ret 1, .cancel] [.finish 1, .finish 0]
+    = some ⟨.returnExceptions, .holdingPermit, [.ret 1, .cancel], [.done (.ok 1), .done .cancelled], 2,
+        .returned [.ok 1, .cancelled], none, 0⟩ := by decide
+example : run .raiseCancel .holdingPermit 2 [.ret 1, .cancel, .ret 3] [.finish 1]
+    = some ⟨.raiseCancel, .holdingPermit, [.ret 1, .cancel, .ret 3], [.done .cancelled, .done .cancelled, .done .cancelled], 3,
+        .raised .cancelled, none, 0⟩ := by decide
+-- the caller of a gather is cancelled: every task is cancelled, the helper raises CancelledError with nothing pending
+example : run .raiseFirst .holdingPermit 2 [.ret 1, .ret 2, .ret 3] [.cancelCaller]
+    = some ⟨.raiseFirst, .holdingPermit, [.ret 1, .ret 2, .ret 3], [.done .cancelled, .done .cancelled, .done .cancelled], 3,
+        .raised .cancelled, none, 0⟩ := by decide
+-- the caller is cancelled inside the BODY of the pool: shut down, cancelled and awaited
+example : run .online .holdingPermit 2 [.ret 1, .ret 2] [.cancelCaller]
+    = some ⟨.online, .holdingPermit, [.ret 1, .ret 2], [.done .cancelled, .done .cancelled], 2, .raised .cancelled,
+        some .cancelled, 0⟩ := by decide
+-- F5 (open): the caller is cancelled inside the pool's __aexit__: the task keeps running, 1 unfinished at the exit
+example : run .online .holdingPermit 1 [.ret 0] [.body (.ret 0), .cancelCaller]
+    = some ⟨.online, .holdingPermit, [.ret 0], [.running], 1, .abandoned, none, 1⟩ := by decide
 -- not a behaviour: finishing a task that is still waiting for a permit
 example : run .raiseFirst .holdingPermit 1 [.ret 0, .ret 0] [.finish 1] = none := by decide
 
